@@ -7,7 +7,7 @@ import subprocess
 
 import vlib
 
-GOALS = ["A%02d" % i for i in range(1, 9)] + ["G%02d" % i for i in range(9, 32)]
+GOALS = ["A%02d" % i for i in range(1, 9)] + ["G%02d" % i for i in range(9, 34)]
 # slices: (name, constants overriding the base); every goal is tried in every applicable slice
 BASE = dict(NReq=3, NOrig=1, MaxDial=3, MaxTick=0, AsBuilt="{}", MaxIdles="{1}", IdleTimeouts="{0}",
             Protos="{TRUE, FALSE}", Faults="AllFaults", Spurious="FALSE", AllowDrop="FALSE")
@@ -22,6 +22,8 @@ SPECIAL = {
     "G27": dict(MaxTick=1, IdleTimeouts="{2}", Protos="{FALSE}", MaxIdles="{2}", Faults="NoFaults"),
     "G28": dict(MaxTick=1, IdleTimeouts="{2}", Protos="{FALSE}", MaxIdles="{2}", Faults="NoFaults"),
     "G29": dict(MaxTick=1, IdleTimeouts="{2}", Protos="{FALSE}", MaxIdles="{2}", Faults="NoFaults"),
+    "G32": dict(MaxTick=1, IdleTimeouts="{2}", Protos="{TRUE}", MaxIdles="{1}", Faults="NoFaults", MaxDial=2),
+    "G33": dict(MaxTick=1, IdleTimeouts="{2}", Protos="{TRUE}", MaxIdles="{1}", Faults="NoFaults", MaxDial=2),
     "G30": dict(AllowDrop="TRUE", MaxDial=2),
     "G31": dict(AllowDrop="TRUE", MaxDial=2, Protos="{FALSE}"),
     "A02": dict(Protos="{FALSE}", Faults="NoFaults"),
